@@ -749,14 +749,16 @@ class Machine(object):
                    'spelling': e['spelling'], 'H': None, 'S': None, 'Cp': {},
                    'range': None}
             fd['entries'].append(tgt)
+        near = abs(factor - 1.0) < 1e-6     # keep every digit
         if d == 'Cp':
-            tgt['Cp'][t] = sg.sig(e['Cp'][t] * factor)
+            tgt['Cp'][t] = e['Cp'][t] * factor if near else \
+                sg.sig(e['Cp'][t] * factor)
             tref = 298.15 if self.aw['T_ref'] is None else self.aw['T_ref']
             ts = [float(x) for x in tgt['Cp']] + [tref]
             r = tgt['range'] or [min(ts), max(ts)]
             tgt['range'] = [min(r[0], min(ts)), max(r[1], max(ts))]
         else:
-            tgt[d] = sg.sig(e[d] * factor)
+            tgt[d] = e[d] * factor if near else sg.sig(e[d] * factor)
         # the two copies now differ, so they need file-independent,
         # self-contained forms
         key = '%s|%s' % (e['key'], d)
@@ -1227,8 +1229,12 @@ def gen_spec(run_seed, prop):
                     ops.append({'op': 'inject_conflict', 'file': f,
                                 'src_file': g, 'key': e['key'], 'datum': d,
                                 'T': t,
+                                # from a factor of two down to a few
+                                # parts in 10^10 (still 10^5 times the
+                                # loader's own sameness tolerance)
                                 'factor': rng.choice([1.000001, 1.01, 0.5,
-                                                      -1.0, 2.0])})
+                                                      -1.0, 2.0, 1 + 3e-10,
+                                                      1 + 4e-9, 1 - 2e-11])})
                     ops.append({'op': 'load', 'as': 'L%d' % nlib})
                     # the two copies, loaded separately, then merged
                     ops.append({'op': 'load', 'root': g,
@@ -1337,6 +1343,8 @@ def gen_spec(run_seed, prop):
         pres = sg.gen_presentation(rng, aw)
         if zero:
             _zero_as_nd(aw, pres)
+        if rng.random() < 0.2:
+            _round_nd_values(rng, aw, pres)
         ops = [{'op': 'load', 'as': 'L0'}]
         for i in range(rng.randrange(2, 9)):
             units = dict(rng.choice(EXPORT_UNITS))
@@ -1371,6 +1379,30 @@ def _zero_as_nd(aw, pres):
             if any(v == 0 for v in e['Cp'].values()):
                 pres['data']['%s|Cp' % e['key']] = {'form': 'nd',
                                                     'unit': None}
+
+
+def _round_nd_values(rng, aw, pres):
+    """Stratum: non-dimensional values whose shortest repr is exponent
+    notation with a one-digit mantissa (1e-05, -3e-07, 2e+16): the writer's
+    '%r' then has no decimal point."""
+    tref = 298.15 if aw['T_ref'] is None else aw['T_ref']
+    picks = [1e-05, -3e-07, 2e+16, 5e-06, -4e-05, 7e-10]
+    for fd in aw['files'].values():
+        for e in fd['entries']:
+            d = rng.choice(['H', 'S', 'Cp'])
+            nd = rng.choice(picks)
+            if d == 'H' and e['H'] is not None:
+                e['H'] = nd * sg.R_GAS * tref
+            elif d == 'S' and e['S'] is not None:
+                e['S'] = nd * sg.R_GAS
+            elif d == 'Cp' and e['Cp']:
+                t = rng.choice(sorted(e['Cp']))
+                e['Cp'][t] = abs(nd) * sg.R_GAS
+            else:
+                continue
+            pres['data']['%s|%s' % (e['key'], d)] = {'form': 'nd',
+                                                     'unit': None}
+    aw.setdefault('strata', []).append('one_digit_mantissa')
 
 
 def _big_magnitudes(rng, aw):
